@@ -445,6 +445,35 @@ def natural_failures(ctx, nets):
             ctx.count("natural_%s_%s" % (name, raised or "returned"))
 
 
+def fail_then_edit_then_run(ctx, rng, nets):
+    """a calculation that fails after the auxiliary elements were added, then the USER creates an element (it may receive an
+    index that was used by an auxiliary element), then every calculation: the user's new row must survive"""
+    for base in nets:
+        if len(base.dcline) == 0:
+            continue
+        for failing in ("sc3ph", "runpp_unknown_algorithm", "runpp_not_converged"):
+            start = copy.deepcopy(base)
+            try:
+                _quiet(NATURAL[failing] if failing in NATURAL else CALCS[failing], start)
+            except Exception:
+                pass
+            vm = float(start.ext_grid.vm_pu.values[0])
+            pp.create_gen(start, int(start.bus.index[1]), p_mw=1.25, vm_pu=vm, vn_kv=110., xdss_pu=0.2, rdss_ohm=0.1, cos_phi=0.9,
+                          sn_mva=10., min_p_mw=0., max_p_mw=10., min_q_mvar=-5., max_q_mvar=5., controllable=True)
+            for calc in ("runpp", "rundcpp", "runopp", "sc3ph", "estimate"):
+                net = copy.deepcopy(start)
+                s0 = S.snapshot(net)
+                raised = None
+                try:
+                    _quiet(CALCS[calc], net)
+                except Exception as e:
+                    raised = type(e).__name__
+                case = {"calc": calc, "after_failing": failing, "then": "create_gen", "net": pp.to_json(base)}
+                judge(ctx, [], s0, net, case, [], raised)
+                ctx.case({"calc": calc, "after_failing": failing, "then": "create_gen", "ndc": len(base.dcline)}, nontrivial=True)
+                ctx.count("fail_edit_run_%s" % calc)
+
+
 def sessions(ctx, rng, nets, n):
     """several calculations in a row on ONE object, some of them interrupted; after every single one the tables must equal
     the initial ones (the first deviation is attributed to the calculation that caused it)"""
@@ -536,6 +565,7 @@ def run(ctx):
     b2b = [N.b2b_net(), N.b2b_net(n_dcline=1)]
     correspondence(ctx, rng, nets, b2b)
     natural_failures(ctx, nets)
+    fail_then_edit_then_run(ctx, rng, nets[:2])
     for calc in CALCS:
         heavy = calc in ("contingency", "estimate", "estimate_bb")
         function_level(ctx, rng, nets[0] if calc != "runpp_3ph" else nets[2], calc,
